@@ -34,12 +34,13 @@ ThrIndex(thr) ==
   ELSE IF thr[1] = "fit" THEN 1
   ELSE IF thr[1] = "set" THEN 1 + thr[2]
   ELSE 1 + Ref.nt + (thr[4] - 1) * Ref.ns + thr[5]
+(* the reference table of query outputs is indexed by model (p, d), preprocessor in force, threshold variant, query *)
 
 ValThr(o, thr) ==
   IF thr = NoThr THEN "none"
   ELSE IF thr[1] = "fit" THEN Ref.thrfit[thr[2]][thr[3]]
   ELSE IF thr[1] = "set" THEN Ref.thrset[thr[2]]
-  ELSE Ref.thrcal[thr[2]][thr[3]][thr[4]][thr[5]]
+  ELSE Ref.thrcal[thr[2]][thr[3]][thr[6]][thr[4]][thr[5]]
 
 (* expected projection of object record r *)
 Proj(r) == << Ref.params[r.params],
@@ -83,7 +84,7 @@ OutcomeFails(ev) ==
   CASE ev.ev = "Query" ->
          IF last'[1] = "NotFitted"
          THEN (IF ev.exc = "NotFittedError" THEN {} ELSE {"C18.unfitted_use_raises_NotFittedError"})
-         ELSE (IF ev.exc = "" /\ ev.out = Ref.query[last'[4][1]][last'[4][2]][ThrIndex(last'[5])][ev.q]
+         ELSE (IF ev.exc = "" /\ ev.out = Ref.query[last'[4][1]][last'[4][2]][last'[6]][ThrIndex(last'[5])][ev.q]
                THEN {} ELSE {"C17.query_output_is_function_of_model"})
     [] ev.ev \in {"SetThreshold", "Calibrate", "GetMetric", "GetMatrix"} ->
          IF last'[1] = "NotFitted"
